@@ -33,6 +33,7 @@ type parked struct {
 	Root  string `json:"root"`           // loop root in the translator's naming
 	State string `json:"state"`          // goroutine wait reason
 	Ext   bool   `json:"ext,omitempty"`  // parked inside a call to a double
+	Call  string `json:"call,omitempty"` // which call (e.g. exec.GetTxs)
 	Func  string `json:"func,omitempty"` // function of the innermost /repo/block frame
 	Kind  string `json:"kind,omitempty"`
 	What  string `json:"what,omitempty"`
@@ -64,6 +65,16 @@ func tableName(fn string) string {
 	if typ != "" && typ != "Manager" {
 		return typ + "." + s
 	}
+	return s
+}
+
+// callName: verif/harness/c13.(*execDouble).GetTxs -> exec.GetTxs
+func callName(fn string) string {
+	s := strings.TrimPrefix(fn, selfPkg)
+	if i := strings.Index(s, "[...]"); i >= 0 {
+		s = s[:i] + s[i+5:]
+	}
+	s = strings.NewReplacer("(*", "", ")", "", "Double", "", "p2pStore", "p2p").Replace(s)
 	return s
 }
 
@@ -146,6 +157,7 @@ func snapshotLoops() []parked {
 		for i := 0; i < inner; i++ {
 			if strings.HasPrefix(fs[i].fn, selfPkg) {
 				p.Ext = true
+				p.Call = callName(fs[i].fn) // the frame nearest to /repo/block wins: the double's method
 			}
 		}
 		p.Func = tableName(fs[inner].fn)
